@@ -244,12 +244,18 @@ struct WorkerAcc {
 
 pub fn run_batch<W: World>(world: &W, cfg: &BatchConfig) -> BatchStats {
     let t0 = Instant::now();
+    // debugging aids (never set by registered commands)
+    let only = std::env::var("VERIF_ONLY_BATCH").ok();
+    let scale: f64 = std::env::var("VERIF_RUNS_SCALE").ok().and_then(|s| s.parse().ok()).unwrap_or(1.0);
+    let runs = if only.as_deref().map(|o| o != cfg.batch).unwrap_or(false) { 0 } else { ((cfg.runs as f64 * scale) as u64).max(1) };
+    let cfg = &BatchConfig { runs, ..*cfg };
     let next = AtomicU64::new(0);
     let min_viol = AtomicU64::new(u64::MAX);
     let found: Mutex<BTreeMap<u64, (Violation, W::Case)>> = Mutex::new(BTreeMap::new());
     let known_hit: Mutex<BTreeMap<String, (u64, String)>> = Mutex::new(BTreeMap::new());
     let samples: Mutex<BTreeMap<u64, Value>> = Mutex::new(BTreeMap::new());
     let threads = cfg.threads.max(1).min(cfg.runs.max(1) as usize);
+    let trace_runs = std::env::var("VERIF_TRACE_RUNS").is_ok();
     let mut accs: Vec<WorkerAcc> = Vec::new();
 
     std::thread::scope(|s| {
@@ -268,7 +274,13 @@ pub fn run_batch<W: World>(world: &W, cfg: &BatchConfig) -> BatchStats {
                         break;
                     }
                     let seed = rng::run_seed(cfg.base_seed, &format!("{}/{}", cfg.check_id, cfg.batch), i);
+                    if trace_runs {
+                        eprintln!("run {i} seed {seed}: generate");
+                    }
                     let case = world.generate(seed, cfg.tier);
+                    if trace_runs {
+                        eprintln!("run {i}: execute {}", serde_json::to_string(&case).unwrap_or_default());
+                    }
                     if (i as usize) < cfg.samples {
                         samples
                             .lock()
